@@ -3,7 +3,7 @@ import logging
 import datetime as dt
 
 from harness.core import Part, ok, viol, HarnessError
-from harness import dp, bv, bumpref
+from harness import fuzz, dp, bv, bumpref
 
 from bumpver import version as bv_version
 from bumpver import v2version
@@ -175,6 +175,7 @@ def selftest():
 PARTS = [
     Part("A-all-starts", check=check_block, domain=blocks, exhaustive=lambda tier: True),
     Part("B-long-ids", check=check_b, strategy=lambda: dp.cases(build_b, size=24), n={"quick": 16000, "thorough": 400000}),
+    fuzz.fuzz_part("B-coverage-guided", build_b, check_b, size=24, runs={"quick": 8000, "thorough": 160000}),
     Part("C-chains", check=check_chain, domain=chains, exhaustive=lambda tier: False),
 ]
 
